@@ -343,6 +343,23 @@ pub fn run_ipm(run: usize, p: &Problem, opts: &RunOpts) -> RunOut {
         if p.tag.contains("+touch") && solver.is_data_update_allowed() && p.b.iter().all(|v| v.abs() < bound) {
             solver.update_q(&p.q).expect("update_q with the same data");
             solver.update_b(&p.b).expect("update_b with the same data");
+            // ... and the matrices: whole value vectors first, then every entry once more through the (index, value) form
+            // in descending index order (the form whose scaling depends on locating each entry's row and column)
+            let pt = P.to_triu();
+            solver.update_P(&pt.nzval).expect("update_P with the same values");
+            solver.update_A(&A.nzval).expect("update_A with the same values");
+            let ia: Vec<usize> = (0..A.nzval.len()).rev().collect();
+            let va: Vec<f64> = ia.iter().map(|&i| A.nzval[i]).collect();
+            if !ia.is_empty() { solver.update_A(&(ia, va)).expect("partial update_A with the same values"); }
+            let ip: Vec<usize> = (0..pt.nzval.len()).rev().collect();
+            let vp: Vec<f64> = ip.iter().map(|&i| pt.nzval[i]).collect();
+            if !ip.is_empty() { solver.update_P(&(ip, vp)).expect("partial update_P with the same values"); }
+            let ib: Vec<usize> = (0..p.b.len()).rev().collect();
+            let vb: Vec<f64> = ib.iter().map(|&i| p.b[i]).collect();
+            if !ib.is_empty() { solver.update_b(&(ib, vb)).expect("partial update_b with the same values"); }
+            let iq: Vec<usize> = (0..p.q.len()).rev().collect();
+            let vq: Vec<f64> = iq.iter().map(|&i| p.q[i]).collect();
+            if !iq.is_empty() { solver.update_q(&(iq, vq)).expect("partial update_q with the same values"); }
         }
         if opts.capture_print {
             use clarabel::io::ConfigurablePrintTarget;
